@@ -48,7 +48,7 @@ def enqNode : PC → Option Nat
   | .fxWTail n _ _ _ => some n
   | .fxWChk n _ _ _ => some n
   | .fxCas n _ _ => some n
-  | .crash (some n) => some n
+  | .crash (some n) none => some n
   | _ => none
 
 /-- Nodes held by a thread that it will dereference or install: they are published. -/
@@ -138,7 +138,7 @@ def linkOf : PC → Option (Nat × MP)
 
 /-- Facts about the arguments of a program point (established by the tests that lead there). -/
 def pcFact : PC → Prop
-  | .skHead _ _ _ p _ => p.2 = true
+  | .skHead _ _ _ p _ => p.2 = true ∧ p.1 ≠ none
   | .bkSet _ _ p => p.2 = false
   | .bkCas _ _ p => p.2 = false
   | .dMark _ _ p _ => p.1 = none ∨ p.2 = false
@@ -167,6 +167,7 @@ structure SInvL (s : St) (G M Q : List Nat) : Prop where
   inw : ∀ t a, a ∈ wnodes (s.pc t) → a ∈ G ++ (M ++ Q)
   low : ∀ t x, x ∈ lows (s.pc t) → Low G M Q x
   deqh : ∀ t h, deqH (s.pc t) = some h → h ∈ M ++ Q → s.head = h
+  dhw : ∀ t h, deqH (s.pc t) = some h → h ∈ G ++ (M ++ Q)
   mids : ∀ t h x, midOf (s.pc t) = some (h, x) → s.head = h → Mid M Q x
   dck : ∀ t h a it p hops, s.pc t = .dChk2 h a it p hops → s.head = h → (p.1 = none ∨ p.2 = false ∨ it = a)
   link : ∀ t a v, linkOf (s.pc t) = some (a, v) → s.next a = v
@@ -314,6 +315,7 @@ def postRet : PC → Option GRet
   | .fcCas _ _ (some v) => some [1, v]
   | .fcP1 _ _ (some v) => some [1, v]
   | .fcP2 _ _ _ (some v) => some [1, v]
+  | .crash _ (some v) => some [1, v]
   | .done r => some r
   | _ => none
 
@@ -322,6 +324,7 @@ def lpRet : PC → Option GRet
   | .fcCas _ _ (some v) => some [1, v]
   | .fcP1 _ _ (some v) => some [1, v]
   | .fcP2 _ _ _ (some v) => some [1, v]
+  | .crash _ (some v) => some [1, v]
   | .dChk h a p => if h = a ∧ p.1 = none then some [0] else none
   | .done r => some r
   | _ => none
@@ -337,6 +340,7 @@ def opOf (val : Nat → Int) (pc : PC) : Option GOp :=
     | .fcCas _ _ (some _) => none
     | .fcP1 _ _ (some _) => none
     | .fcP2 _ _ _ (some _) => none
+    | .crash _ (some _) => none
     | _ => some ⟨"deq", []⟩
 
 /-- The effect of a linearization point on the abstract queue.  A `deq` is the `fifo` transition; an `enq v` inserts
